@@ -106,6 +106,7 @@ func init() { h.RegisterReplayer("c04-disc", evalC04Disc) }
 func C04(tier string) int {
 	run := h.NewRun("C04", tier, "model_checking", "", 25*time.Minute)
 	c04Seq(run, tier)
+	c04Case(run)
 	c04Sched(run, tier)
 	return run.Finish()
 }
@@ -174,5 +175,80 @@ func c04Seq(run *h.Run, tier string) {
 		})
 		run.State(int64(st.States))
 		fmt.Printf("  config %+v: states=%d transitions=%d depth=%d\n", pc, st.States, st.Transitions, st.MaxDepth)
+	}
+}
+
+// ---- command words are case-insensitive ------------------------------------------------------------------
+
+type C04CaseCase struct {
+	Mode     string `json:"mode"`
+	Spelling string `json:"spelling"` // lower | mixed
+}
+
+var c04Verbs = []string{"EHLO", "LHLO", "HELO", "MAIL FROM", "RCPT TO", "DATA", "BDAT", "LAST", "RSET", "NOOP", "VRFY", "HELP", "AUTH", "QUIT", "STARTTLS", "BODY", "SIZE"}
+
+func respell(conv string, how string) string {
+	for _, v := range c04Verbs {
+		var r string
+		switch how {
+		case "lower":
+			r = strings.ToLower(v)
+		default:
+			b := []byte(strings.ToLower(v))
+			for i := 0; i < len(b); i += 2 {
+				if b[i] >= 'a' && b[i] <= 'z' {
+					b[i] -= 32
+				}
+			}
+			r = string(b)
+		}
+		conv = strings.ReplaceAll(conv, "\n"+v, "\n"+r)
+		conv = strings.ReplaceAll(conv, " "+v, " "+r)
+	}
+	return conv
+}
+
+// evalC04Case: the same conversation with every command word in another spelling must produce the same output.
+func evalC04Case(c C04CaseCase) *h.Finding {
+	pc := ref.PConfig{LMTP: strings.HasPrefix(c.Mode, "lmtp"), LMTPBackend: c.Mode == "lmtp-rcpt", AllowInsecureAuth: true, AuthBackend: true}
+	hl := strings.TrimSuffix(hello(c.Mode), "\r\n")
+	conv := "\n" + hl + "\r\nNOOP\r\nVRFY x\r\nHELP\r\nAUTH ONE Z29vZA==\r\nMAIL FROM:<ok@a.example> BODY=8BITMIME SIZE=10\r\nRCPT TO:<ok@b.example>\r\nDATA\r\nData line: DATA NOOP QUIT stay as they are\r\n.\r\n" +
+		"MAIL FROM:<ok@a.example>\r\nRCPT TO:<ok@b.example>\r\nBDAT 4\r\nBDAT" + "BDAT 5 LAST\r\nlast!" + "RSET\r\n" + hl + "\r\nSTARTTLS\r\nFOOB\r\nQUIT\r\n"
+	other := respell(conv, c.Spelling)
+	// payload and message content must not have been respelled: restore them
+	other = strings.Replace(other, strings.Replace(respell("\nData line: DATA NOOP QUIT stay as they are", c.Spelling), "\n", "", 1), "Data line: DATA NOOP QUIT stay as they are", 1)
+	run1 := func(in string) *h.Obs {
+		cfg, be := serverFor(pc)
+		return h.RunS(cfg, be, h.OneSeg([]byte(in[1:])), h.TermEOF)
+	}
+	a, b := run1(conv), run1(other)
+	desc := fmt.Sprintf("mode=%s spelling=%s", c.Mode, c.Spelling)
+	if f := b.Sanity("c04", desc); f != nil {
+		return f
+	}
+	if !bytes.Equal(a.Wire, b.Wire) {
+		return h.F("c04-case-sensitive", "%s: the server answers differently when command words are not in upper case.\n   sent:      %q\n   upper:     %q\n   respelled: %q", desc, other[1:], a.Wire, b.Wire)
+	}
+	if h.Calls(a.Trace) != h.Calls(b.Trace) {
+		return h.F("c04-case-sensitive", "%s: backend calls differ: %s vs %s", desc, h.Calls(a.Trace), h.Calls(b.Trace))
+	}
+	return nil
+}
+
+func init() { h.RegisterReplayer("c04-case", evalC04Case) }
+
+func c04Case(run *h.Run) {
+	for _, mode := range corpusModes {
+		for _, sp := range []string{"lower", "mixed"} {
+			c := C04CaseCase{Mode: mode, Spelling: sp}
+			f := evalC04Case(c)
+			run.Eval(true)
+			if f != nil {
+				run.Violate("c04-case", c, f, func() *h.Finding { return evalC04Case(c) })
+				run.Outcome("violation:" + f.Sig)
+			} else {
+				run.Outcome("case-insensitive-ok")
+			}
+		}
 	}
 }
